@@ -21,6 +21,54 @@ def corridor_scene(rnd, W, k, opts):
     return {'mode': 1, 'P': rnd.choice([10, 50]), 'buf': 0, 'opts': opts, 'shapes': shapes, 'conns': conns}
 
 
+def pin_scene(order, dx2, dy3, pq):
+    """six shapes with one connection pin each and three pin-to-pin connectors Q, R, P created in the given order: Q's free middle
+    segment shares a line with R's first segment inside the span of the straight connector P (orders and offsets vary that)"""
+    S = {1: (4, 21, 12, 27, 4, 2, 8), 2: (16 + pq, 0, 24 + pq, 6, 2, 4, 2), 3: (36 + dx2, 16, 44 + dx2, 22, 2, 4, 2),
+         4: (68, 33 + dy3, 76, 39 + dy3, 0, 2, 4), 5: (16 + pq, 66, 24 + pq, 72, 2, 0, 1), 6: (68, 53, 76, 59, 0, 2, 4)}
+    ops = []
+    for sid, (x1, y1, x2, y2, xq, yq, dirs) in S.items():
+        ops.append([1, sid, x1, y1, x2, y2])
+        ops.append([2, sid, 1, xq, yq, 1, 0, dirs, 0])
+    C = {'Q': (1, 6), 'R': (3, 4), 'P': (2, 5)}
+    for k, name in enumerate(order):
+        a, b = C[name]
+        ops.append([4, 21 + k, 1, a, 1, 1, b, 1])
+    ops.append([13])
+    return ops
+
+
+def pin_family(d, quick, LS):
+    """records (as for the scene families) of pin-attached connectors, replayed through the object-level harness"""
+    import itertools
+    from checks import life_common as LC
+    hl, = V.build(['h_life'])
+    hists, meta = [], []
+    for order in itertools.permutations('QRP'):
+        for dx2 in ((0, 4) if quick else (0, 2, 4, 8)):
+            for dy3 in ((0,) if quick else (0, 4)):
+                for pq in ((0,) if quick else (0, 4)):
+                    for buf in (0, 1):
+                        hists.append(pin_scene(order, dx2, dy3, pq)); meta.append(buf)
+    scen = os.path.join(d, 'pins.txt')
+    with open(scen, 'w') as f:
+        for h, buf in zip(hists, meta):
+            f.write('1 %d %d %s\n' % (buf, len(h), ' '.join(str(x) for o in h for x in o)))
+    execs, _ = LC.run_harness(hl, scen, os.path.join(d, 'pins.ndjson'), len(hists), timeout=600)
+    recs = []
+    for ex in execs:
+        snaps = [json.loads(l) for l in ex['lines'] if '"processed":true' in l and '"shapes"' in l]
+        errs = [json.loads(l) for l in ex['lines'] if '"error"' in l]
+        buf = meta[ex['index']]
+        if errs or not snaps:
+            recs.append({'thrown': True, 'what': (errs[0]['error'] if errs else 'no snapshot'), 'opts': 0, 'P': 10, 'buf': 2 * buf * LS, 'd': 4 * LS, 'rects': [], 'conns': []})
+            continue
+        sn = snaps[-1]
+        recs.append({'thrown': False, 'what': '', 'opts': 0, 'P': 10, 'buf': 2 * buf * LS, 'd': 4 * LS, 'rects': [q[1:] for q in sn['shapes']],
+                     'conns': [{'src': c['src']['p'], 'dst': c['dst']['p'], 'raw': c['raw'], 'disp': c['disp'], 'cps': []} for c in sorted(sn['conns'], key=lambda c: c['id'])]})
+    return recs
+
+
 def main(tier):
     ev = V.Evidence(PID, tier)
     vd = V.Verdict(PID, ev)
@@ -56,6 +104,9 @@ def main(tier):
                      'conns': [{'src': [c['src'][0] * LS, c['src'][1] * LS], 'dst': [c['dst'][0] * LS, c['dst'][1] * LS],
                                 'raw': [] if sc['thrown'] else [p[:2] for p in c['raw']], 'disp': [] if sc['thrown'] else c['disp'],
                                 'cps': [[p[0] * LS, p[1] * LS] for p in c['cps']]} for c in sc['conns']]})
+    npin = len(recs)
+    recs += pin_family(d, quick, LS)
+    npin = len(recs) - npin
     rf = os.path.join(d, 'nudge_recs.json')
     json.dump({'chunk': 20, 'recs': recs}, open(rf, 'w'))
     r = V.tlc(NT, os.path.join(V.SPEC, 'avoid', 'Nudge.cfg'), env={'NUDGERECS': rf}, timeout=3000, cont=True, mem='24g')
